@@ -851,7 +851,7 @@ pub fn check(ctx: &Ctx) {
     let lens: Vec<usize> = if quick {
         vec![0, 1, 100, 505, 506, 507, 512, 1017, 1018, 1019, 1400, 8378, 8379]
     } else {
-        (0..=1600).chain([8190, 8191, 8192, 8193, 8377, 8378, 8379, 8380, 16384, 65535, 65536, 70000]).collect()
+        (0..=if deep { 6000 } else { 1600 }).chain([8190, 8191, 8192, 8193, 8377, 8378, 8379, 8380, 16384, 65535, 65536, 70000]).collect()
     };
     for cfg in &spine {
         for &n in &lens {
@@ -881,7 +881,7 @@ pub fn check(ctx: &Ctx) {
     ctx.run_space(
         "written_streams",
         true,
-        "every stream MessageBuilder writes for the 108 unarmored spine configurations (source x compression none/zip/zlib x plain/SEIPDv1/SEIPDv2 x signers x mode) x payload lengths (quick: 13 boundary lengths; thorough: every length 0..1600 + large), partial size 512 and 8192; plus 0..8 signers x AEAD chunks of 64 / 128 / 256 octets x known-length / streamed source: deframed by the reference deframer at every nesting level (encrypted containers opened with the reference crypto model, compressed ones with flate2): framing legal, lengths truthful, literal body = payload.",
+        "every stream MessageBuilder writes for the 108 unarmored spine configurations (source x compression none/zip/zlib x plain/SEIPDv1/SEIPDv2 x signers x mode) x payload lengths (every length 0..1600, thorough 0..6000, + large), partial size 512 and 8192; plus 0..8 signers x AEAD chunks of 64 / 128 / 256 octets x known-length / streamed source: deframed by the reference deframer at every nesting level (encrypted containers opened with the reference crypto model, compressed ones with flate2): framing legal, lengths truthful, literal body = payload.",
         wc.into_par_iter(),
         run_written,
     );
